@@ -181,7 +181,7 @@ def decide_leq(value: Poly, bound, slacks: list[Poly], variables=None):
     if prove_nonneg(target, slacks):
         return True, None
     value = to_poly(value)
-    if value.nonneg_coeffs() and not value.is_linear():
+    if value.nonneg_coeffs():
         # monotone polynomial: bounded by its value at the box relaxation's upper corner
         ub = box_upper_bounds(slacks)
         if all(v in ub for v in value.variables()):
